@@ -48,6 +48,9 @@ def dispatch (prop : String) (ts : List String) : Option Family :=
           let m := op.modelOut
           some { modelOut := m, kf := op.kf prop m, expect := op.judge prop, kind := "extract" }
         | none =>
+          match parseDorOp ts with
+          | some op => some { modelOut := op.modelOut, kf := op.kf prop, expect := op.judge prop, kind := "dor:" ++ (ts.getD 1 "?") }
+          | none =>
           match parseDoOp ts with
           | some op => some { modelOut := op.modelOut, kf := op.kf prop, expect := op.judge prop,
                               kind := "do:" ++ (ts.getD 1 "?") }
